@@ -3,6 +3,7 @@
 package main
 
 import (
+	"testing/synctest"
 	"crypto/sha256"
 	"encoding/hex"
 	"fmt"
@@ -460,6 +461,9 @@ func (r *vfReplica) Crash() {
 }
 
 func (w *vfWorld) Close() {
+	// goroutines the code under test started on its own (an asynchronous reload, say) come to rest while the files they
+	// read still exist: a logger.Fatal from a straggler would end the worker process silently
+	synctest.Wait()
 	for _, f := range w.cleanup {
 		f()
 	}
